@@ -261,6 +261,8 @@ struct Outcome {
   ready_len: usize,
   /// popped FrameBatches that are not one of our items (the filter let a non-matching message through)
   undecodable: usize,
+  /// items of the deregistered pipe that had been accepted before deregister_pipe() was called
+  must_survive: Vec<Item>,
 }
 
 fn run_history(cfg: &Cfg, seed: u64) -> Option<Outcome> {
@@ -347,15 +349,22 @@ fn run_history(cfg: &Cfg, seed: u64) -> Option<Outcome> {
         }
       }));
     }
-    // optional deregistration mid-stream
+    // optional deregistration mid-stream. Items the pipe's producer had ALREADY been told were accepted when
+    // deregister_pipe() is called are queued for the receiver like any others and must still be popped; what the
+    // producer pushes concurrently with / after the call stays open.
+    let must_survive: Arc<parking_lot::Mutex<Option<Vec<Item>>>> = Default::default();
     if let Some(p) = cfg.deregister_pipe {
       let q2 = q.clone();
       let popped2 = popped.clone();
+      let pushed2 = pushed.clone();
+      let must2 = must_survive.clone();
       let half = (cfg.items / 2) as usize;
       tokio::spawn(async move {
         loop {
           if popped2.lock().iter().filter(|i| i.0 == p).count() >= half.max(1) {
+            let before: Vec<Item> = pushed2.lock().iter().filter(|i| i.0 == p).copied().collect();
             q2.deregister_pipe(p);
+            *must2.lock() = Some(before);
             return;
           }
           tokio::task::yield_now().await;
@@ -372,7 +381,14 @@ fn run_history(cfg: &Cfg, seed: u64) -> Option<Outcome> {
       let dp = cfg.deregister_pipe;
       let npushed = pushed.lock().iter().filter(|i| Some(i.0) != dp).count();
       let npopped = popped.lock().iter().filter(|i| Some(i.0) != dp).count();
-      if all_done && npopped >= npushed {
+      let survivors_popped = match &*must_survive.lock() {
+        Some(m) => {
+          let pp = popped.lock();
+          m.iter().all(|it| pp.contains(it))
+        }
+        None => cfg.deregister_pipe.is_none() || all_done, // deregistration not reached yet: wait for it unless everything else is over
+      };
+      if all_done && npopped >= npushed && survivors_popped {
         break;
       }
       let idle = last_progress.lock().elapsed();
@@ -413,7 +429,8 @@ fn run_history(cfg: &Cfg, seed: u64) -> Option<Outcome> {
     }
     let pushed = pushed.lock().clone();
     let popped = popped.lock().clone();
-    Outcome { popped, pushed, stuck, slots, ready_len, undecodable: undecodable.load(Ordering::SeqCst) }
+    let must = must_survive.lock().clone().unwrap_or_default();
+    Outcome { popped, pushed, stuck, slots, ready_len, undecodable: undecodable.load(Ordering::SeqCst), must_survive: must }
   });
   verif::set_perturbation(0);
   rt.shutdown_timeout(Duration::from_millis(200));
@@ -428,6 +445,11 @@ fn check_history(rep: &mut Report, cfg: &Cfg, seed: u64, o: &Outcome) {
     return;
   }
   let wit = |o: &Outcome| json!({"config": cfgs, "seed": seed, "pushed": o.pushed.len(), "popped": o.popped.len(), "ready_len": o.ready_len, "slots": o.slots.iter().map(|s| format!("pipe{} chan={} queued={} reserved={}", s.pipe_id, s.channel_len, s.queued_count, s.reserved_count)).collect::<Vec<_>>()});
+  let lost_survivors: Vec<&Item> = o.must_survive.iter().filter(|it| !o.popped.contains(it)).collect();
+  if !lost_survivors.is_empty() {
+    rep.violation(format!("items_queued_before_deregistration_lost|{}", sigcfg), format!("{} item(s) that pipe {} had accepted before deregister_pipe() was called were never popped (first {:?}); {}", lost_survivors.len(), cfg.deregister_pipe.unwrap_or(0), lost_survivors[0], o.stuck.clone().unwrap_or_default()), wit(o));
+    return;
+  }
   if let Some(why) = &o.stuck {
     // lost wake-up predicate: items sit in a pipe, the ready list is empty, nothing is running
     let orphan = o.slots.iter().any(|s| s.channel_len > 0 && Some(s.pipe_id) != cfg.deregister_pipe) && o.ready_len == 0;
